@@ -44,6 +44,20 @@ func seed() int64 {
 	return s
 }
 
+// errList collects failures from the goroutines (bounded, never blocks).
+type errList struct {
+	mu   sync.Mutex
+	list []string
+}
+
+func (e *errList) add(s string) {
+	e.mu.Lock()
+	if len(e.list) < 20 {
+		e.list = append(e.list, s)
+	}
+	e.mu.Unlock()
+}
+
 type mapEnv struct{ m map[string]string }
 
 func (e *mapEnv) Get(k string) (string, bool) { v, ok := e.m[k]; return v, ok }
@@ -154,7 +168,7 @@ func TestC19(t *testing.T) {
 		wantJSON, _ := json.Marshal(m)
 		wantP, _ := json.Marshal(p)
 		var wg sync.WaitGroup
-		errs := make(chan string, goroutines*8)
+		errs := &errList{}
 		for g := 0; g < goroutines; g++ {
 			wg.Add(1)
 			go func(g int) {
@@ -162,35 +176,35 @@ func TestC19(t *testing.T) {
 				for it := 0; it < 3; it++ {
 					for _, k := range wantKeys {
 						if _, ok := m.Get(k); !ok || !m.Contains(k) {
-							errs <- "lookup of live key failed: " + k
+							errs.add("lookup of live key failed: " + k)
 						}
 					}
 					if _, ok := m.Get("k-deleted-or-absent"); ok {
-						errs <- "lookup of absent key succeeded"
+						errs.add("lookup of absent key succeeded")
 					}
 					if m.Len() != len(wantKeys) || m.IsZero() {
-						errs <- "Len/IsZero changed"
+						errs.add("Len/IsZero changed")
 					}
 					if got := collect(m); !reflect.DeepEqual(got, wantKeys) {
-						errs <- "iteration order changed"
+						errs.add("iteration order changed")
 					}
 					if !ordered.Equal(m, twin) || !ordered.Equal(twin, m) {
-						errs <- "Equal(m, twin) false"
+						errs.add("Equal(m, twin) false")
 					}
 					if um := m.ToMap(); len(um) != len(wantKeys) {
-						errs <- "ToMap size"
+						errs.add("ToMap size")
 					}
 					if b, err := json.Marshal(m); err != nil || string(b) != string(wantJSON) {
-						errs <- "json.Marshal(map) changed"
+						errs.add("json.Marshal(map) changed")
 					}
 					if _, err := yaml.Marshal(m); err != nil {
-						errs <- "yaml.Marshal(map): " + err.Error()
+						errs.add("yaml.Marshal(map): " + err.Error())
 					}
 					if b, err := json.Marshal(p); err != nil || string(b) != string(wantP) {
-						errs <- "json.Marshal(pipeline) changed"
+						errs.add("json.Marshal(pipeline) changed")
 					}
 					if _, err := yaml.Marshal(p); err != nil {
-						errs <- "yaml.Marshal(pipeline): " + err.Error()
+						errs.add("yaml.Marshal(pipeline): " + err.Error())
 					}
 					for _, cs := range steps {
 						for _, pl := range cs.Plugins {
@@ -198,18 +212,17 @@ func TestC19(t *testing.T) {
 						}
 						sf := &signature.CommandStepWithInvariants{CommandStep: *cs, RepositoryURL: "repo"}
 						if err := signature.Verify(ctx, cs.Signature, pub, sf, signature.WithEnv(map[string]string{"P": "v"})); err != nil {
-							errs <- "Verify on the shared step: " + err.Error()
+							errs.add("Verify on the shared step: " + err.Error())
 						}
 						if _, err := signature.Sign(ctx, signer, sf, signature.WithEnv(map[string]string{"P": "v"})); err != nil {
-							errs <- "Sign on the shared step: " + err.Error()
+							errs.add("Sign on the shared step: " + err.Error())
 						}
 					}
 				}
 			}(g)
 		}
 		wg.Wait()
-		close(errs)
-		for e := range errs {
+		for _, e := range errs.list {
 			fail("round %d shared: %s", round, e)
 		}
 		cases += goroutines
